@@ -1,7 +1,7 @@
 """C17 - only in-space actions are executed, as the allocation they denote (DESIGN §7 C17)."""
 ID = "C17"
 LEVEL = "proof"
-FUNCTIONS = ["BoxPortfolio.contains", "_Allocation.__init__", "PortfolioSpace.make_rebalancing_request", "TradingEnv.step"]
+FUNCTIONS = ["BoxPortfolio.contains", "_Allocation.__init__", "PortfolioSpace.make_rebalancing_request", "TradingEnv.step", "TradingEnv.reset"]
 LEVEL_TEXT = ("Deductive: BoxPortfolio.contains is proved equivalent to `right length and every component within bounds` (a NaN "
               "component is outside) over arrays of symbolic length; make_rebalancing_request raises ValueError iff the action is "
               "not in the space (Discrete.contains is the trusted gymnasium model: integers in range only) and otherwise builds the "
@@ -10,6 +10,7 @@ LEVEL_TEXT = ("Deductive: BoxPortfolio.contains is proved equivalent to `right l
               "with the due action taken from the FIFO delay line. Execution of the allocation is C03.")
 EXPLANATION = LEVEL_TEXT
 EXTRA_ASSUMPTIONS = [
+    "TradingEnv.reset is verified to establish the environment invariant that TradingEnv.step assumes at entry and re-establishes at exit, modulo ASSUMED summaries (IState.reset, Transmitter._reset, Transmitter._next, IState.__call__) and TRUSTED small models (sorted() as a permutation ordered by IEvent.__lt__ - itself executed -, Cash() as one fixed cash key with the precondition that the space's base currency is that key, defaultdict(LimitOrderBook) as an empty book table whose rows read NaN : NaN, alive, AbstractContract.verify/Rate.verify, np.inf as an unconstrained constant); the configuration clauses (fees >= 0, contract specs in the property's regime, reward parameters, 0 within the box bounds) are preconditions of reset",
     "A4: gymnasium Space.__contains__ -> contains; Discrete.contains accepts integers in [start, start+n) only; Space.sample returns a member",
     "TRUSTED: the contracts of an action space have pairwise distinct static hashes (PortfolioSpace.__init__ rejects duplicates; the source notes the FutureChain/Future corner)",
     "ASSUMED contracts: IState.__call__, Transmitter._next; input assumption of TradingEnv._process_*_events: delivered quotes stay within the property's quantifier",
